@@ -194,7 +194,9 @@ pub fn run(out: &mut Out, seed: u64, thorough: bool) {
                 rx.note_id(40);
                 let mut enc = Encapsulator::new(DefaultCrc {});
                 let extlen: usize = exts.iter().map(|e| 2 + e.data.len()).sum::<usize>() - if *ptype < 0x0100 { 2 } else { 0 };
-                let buf = if fragmented { 7 + 3 + extlen + plen / 2 } else { 200 };
+                // fragmented: the first fragment carries half of the PDU; when the storage is exactly as long as the
+                // PDU it carries all but one byte (payload + extension bytes exceed the storage, the payload does not)
+                let buf = if !fragmented { 200 } else if short == 0 { 7 + 3 + extlen + plen - 1 } else { 7 + 3 + extlen + plen / 2 };
                 let t = ev_encap(out, &mut enc, &pdu, 40, LA3, *ptype, buf, Some(exts), None);
                 let ctx = match &t.res {
                     Some(Ok(EncapStatus::CompletedPkt(_))) => {
@@ -383,6 +385,16 @@ pub fn run(out: &mut Out, seed: u64, thorough: bool) {
         one(out, &mut rng, &exts, id, LA6, 10, 80, 0, "refused_same_id");
         let exts2 = vec![ExtSpec { id: 0x0211, data: vec![1, 2] }, ExtSpec { id, data: vec![0x5A; dlen] }];
         one(out, &mut rng, &exts2, id, LA3, 12, 80, 0, "refused_same_id");
+    }
+    // the protocol type (below 0x0100) equals the id of an extension that is NOT the last one; the last one is
+    // mandatory with another id, or optional: nothing decodable can be written
+    for (ids, ptype) in [(vec![0x0010u16, 0x0300, 0x0020], 0x0010u16), (vec![0x0043, 0x0044], 0x0043), (vec![0x0043, 0x0211], 0x0043), (vec![0x0046, 0x0042, 0x0045], 0x0046)] {
+        let exts: Vec<ExtSpec> = ids
+            .iter()
+            .map(|id| ExtSpec { id: *id, data: if *id >= 0x0100 { vec![0x5A; 2 * ((*id >> 8) as usize - 1)] } else { vec![] } })
+            .collect();
+        one(out, &mut rng, &exts, ptype, LA6, 10, 80, 0, "refused_earlier_id");
+        one(out, &mut rng, &exts, ptype, LA3, 40, 30, 0, "refused_earlier_id");
     }
     for (classes, ptype) in bad {
         let exts: Vec<ExtSpec> = classes.iter().map(|c| ext_of(*c, &mut rng)).collect();
